@@ -624,7 +624,7 @@ func init() {
 		File:   "bounded/iter_merge_bounded_test.go",
 		Test:   "TestVerifBoundedIterMerge",
 		Covers: "heap iterator (segmentStack.startIterator/StartIterator, iterator.Next/SeekTo/Current/CurrentEx, optimize) and segmentStack.mergeInto (trusted contract), against a reference fold",
-		Bound:  "keys {\"\",a,b}; per key absent|Set|Del|Merge; quick: all stacks of <= 2 levels (lowest optionally the lower-level snapshot) + 1500 seeded random 3-level stacks; thorough: all stacks of <= 3 levels (~516000); string-append merge operator; all ranges over {nil,\"\",a,b,c}; SeekTo from fresh and exhausted iterators; mergeInto of every upper range, with/without base, both tail modes",
+		Bound:  "keys {\"\",a,b}; per key absent|Set|Del|Merge; quick: all stacks of <= 2 levels (lowest optionally the lower-level snapshot) + 1500 seeded random 3-level stacks; thorough: all stacks of <= 3 levels (~516000); string-append merge operator; all ranges over {nil,\"\",a,b,c}; SeekTo from fresh and exhausted iterators and two consecutive seeks on start-bounded ranges; mergeInto of every upper range, with/without base, both tail modes",
 	}
 	for _, p := range []string{"C01", "C07", "C08", "C09", "C10", "C13"} {
 		boundedStandins[p] = append(boundedStandins[p], it)
